@@ -20,15 +20,15 @@ package imagetype
 //@   ensures [C09] len(buf) >= 24 ==> err == nil || err == ErrImageTypeNotFound
 
 //@ func ScanBuf
-//@   props C01 C09
+//@   props C01 C09 C08
 //@   entry
 //@   requires br != nil
 //@   modifies stream(br)
-//@   ensures [C09] pos(br) == old(pos(br))
-//@   ensures [C09] err != nil ==> imageType == ImageUnknown
-//@   ensures [C09] err == nil ==> pos(br) + 24 <= lim(br) && imageType == ImageType(specType(window(br))) && imageType != ImageUnknown
-//@   ensures [C09] old(pos(br)) + 24 > lim(br) ==> imageType == ImageUnknown && err != nil
-//@   ensures [C09] old(pos(br)) + 24 <= lim(br) && !fault(br) && bsize(br) >= 24 ==> imageType == ImageType(specType(window(br))) && (err == nil || err == ErrImageTypeNotFound)
+//@   ensures [C09 C08] pos(br) == old(pos(br))
+//@   ensures [C09 C08] err != nil ==> imageType == ImageUnknown
+//@   ensures [C09 C08] err == nil ==> pos(br) + 24 <= lim(br) && imageType == ImageType(specType(window(br))) && imageType != ImageUnknown
+//@   ensures [C09 C08] old(pos(br)) + 24 > lim(br) ==> imageType == ImageUnknown && err != nil
+//@   ensures [C09 C08] old(pos(br)) + 24 <= lim(br) && !fault(br) && bsize(br) >= 24 ==> imageType == ImageType(specType(window(br))) && (err == nil || err == ErrImageTypeNotFound)
 
 //@ func Scan
 //@   props C01 C09
